@@ -18,6 +18,7 @@ SYMBOL_SETS = {
     "get_reachable_symbols": "(reachable_symbols {G})",
 }
 BOOLS = {"is_empty": "(is_empty_cfg {G})", "generate_epsilon": "(generate_epsilon {G})"}
+EXTRA_OPS = ("get_words", "is_finite")
 
 
 def eff_len(case):
@@ -48,6 +49,10 @@ def impl_case(case):
         return {"bits": [bool(g.contains([Terminal(a) for a in w])) for w in ws]}
     if op in BOOLS:
         return {"bool": bool(getattr(g, op)())}
+    if op == "get_words":
+        return {"words": [[cfglib._v(x) for x in w] for w in g.get_words(case["n"])]}
+    if op == "is_finite":
+        return {"bool": bool(g.is_finite())}
     if op in SYMBOL_SETS:
         return {"symbols": cfglib.extract_symbols(getattr(g, op)())}
     if op in STAGES:
@@ -66,6 +71,10 @@ def coq_expr(case, obs):
     if op == "contains":
         ws = [[ci.ter(a) for a in w] for w in words_of(case)]
         return "(map (cfg_member %s) %s, map (contains NFFUEL %s) %s)" % (G, cq(ws), G, cq(ws))
+    if op == "get_words":
+        return "(get_words %s %d%%nat)" % (G, case["n"])
+    if op == "is_finite":
+        return "(is_finite NFFUEL %s)" % G
     if op in BOOLS:
         extra = ", cfg_member %s []" % G if op == "generate_epsilon" else ", true"
         return "(%s%s)" % (BOOLS[op].format(G=G), extra)
@@ -105,6 +114,19 @@ def judge_case(ctx, case, obs, mv):
             ctx.fail("contains", case, {"words": bad[:3], "hashseed": obs.get("_hs")})
         return
     ctx.count(1)
+    if op == "get_words":
+        ci = CfgInterner()
+        coq_cfg(case["g"], ci)
+        want = sorted(tuple(w) for w in mv)
+        got = sorted(tuple(ci.ter(a) for a in w) for w in obs["words"])
+        if want != got:
+            ctx.fail("get_words", case, {"missing_interned": [w for w in want if w not in got][:3], "extra_interned": [w for w in got if w not in want][:3],
+                                         "duplicates": len(got) != len(set(got)), "hashseed": obs.get("_hs")})
+        return
+    if op == "is_finite":
+        if mv is not None and obs["bool"] != mv[1]:
+            ctx.fail("is_finite", case, {"impl": obs["bool"], "model": mv[1]})
+        return
     if op in BOOLS:
         m, o = mv
         if op == "generate_epsilon" and m != o:
@@ -173,7 +195,7 @@ def check_cases(ctx, module, cases, ext=None):
             ext.judge_case(ctx, c, obs[i], mvs[i])
 
 
-_KNOWN_OPS = set(["contains"]) | set(BOOLS) | set(SYMBOL_SETS) | set(STAGES)
+_KNOWN_OPS = set(["contains"]) | set(BOOLS) | set(SYMBOL_SETS) | set(STAGES) | set(EXTRA_OPS)
 
 
 def shrink_candidates(case):
